@@ -52,6 +52,9 @@ type transcript struct {
 
 // deviation alters what the device receives. Any of the hooks may be nil.
 type deviation struct {
+	// replayed: what is delivered was recorded in ANOTHER session and nobody re-signed it; the peer of this run proved
+	// nothing about this session, so any progress is a violation whatever the reference verifier says about the bytes
+	replayed bool
 	class, what string
 	on61        func(body []byte) []byte
 	on63        func(i int, body []byte) []byte
@@ -135,6 +138,7 @@ func (e *env) run(d deviation) obs {
 		switch x.MsgType {
 		case 60:
 			o.tr.req60 = bytes.Clone(x.ReqBody) // what the device sent
+			e.noteHelloNonce(x.ReqBody, d)
 			if d.on60 != nil {
 				if nb := d.on60(x.ReqBody); nb != nil && !bytes.Equal(nb, x.ReqBody) {
 					x.ReqBody, o.applied = nb, true
@@ -190,6 +194,27 @@ func (e *env) run(d deviation) obs {
 	}
 	o.modCall = rec.Count("device", "")
 	return o
+}
+
+// helloNonces: every NonceTO2ProveOV any device run of this check put on the wire. "Fresh" means a value the device
+// has not used before: a repeat (2^-128 by chance) or the all-zero value is a violation by itself - every replay
+// defence of the device rests on it.
+var helloNonces sync.Map
+
+func (e *env) noteHelloNonce(req60 []byte, d deviation) {
+	hello, n, err := rc.Parse(req60)
+	if err != nil || n != len(req60) || hello.Kind != rc.Array || len(hello.Items) != 6 || hello.Items[2].Kind != rc.Bytes {
+		return
+	}
+	nonce := hex.EncodeToString(hello.Items[2].B)
+	id := fmt.Sprintf("%s/enc%d hops=%d %s (%s)", e.kind.Name, e.enc, e.hops, d.class, d.what)
+	if strings.Trim(nonce, "0") == "" {
+		r.Violation("hello-nonce-not-fresh:zero", fmt.Sprintf("%s: the device's HelloDevice carries the all-zero nonce", id), map[string]any{"req60": hex.EncodeToString(req60)})
+		return
+	}
+	if prev, dup := helloNonces.LoadOrStore(nonce, id); dup {
+		r.Violation("hello-nonce-not-fresh:repeated", fmt.Sprintf("%s: HelloDevice nonce %s was already used by run %v", id, nonce, prev), map[string]any{"req60": hex.EncodeToString(req60)})
+	}
 }
 
 // refP is the reference predicate on what the device received.
@@ -309,6 +334,9 @@ func (e *env) judge(d deviation, o obs, honest bool) {
 	progressed := o.cred != nil || o.err == nil || o.modCall > 0 || o.sent64
 	id := fmt.Sprintf("%s/enc%d hops=%d to1d=%v", e.kind.Name, e.enc, e.hops, e.to1d != nil)
 	repl := map[string]any{"config": id, "class": d.class, "what": d.what, "req60": hex.EncodeToString(o.tr.req60), "resp61": hex.EncodeToString(o.tr.resp61), "to1d": hex.EncodeToString(o.to1d)}
+	if d.replayed && o.applied && progressed {
+		r.Violation("proceeds-on-replayed-proof:"+d.class, fmt.Sprintf("%s %s (%s): the device went on (cred=%v err=%v module calls=%d ProveDevice sent=%v) on an owner proof recorded in another session", id, d.class, d.what, o.cred != nil, o.err, o.modCall, o.sent64), repl)
+	}
 	if progressed && !ok {
 		r.Violation("proceeds-without-proof:"+d.class, fmt.Sprintf("%s %s (%s): device went on (cred=%v err=%v module calls=%d ProveDevice sent=%v) although the reference predicate fails: %s", id, d.class, d.what, o.cred != nil, o.err, o.modCall, o.sent64, why), repl)
 	}
@@ -527,7 +555,7 @@ func (e *env) explore(thorough bool) {
 	// (c) whole-message substitution from other sessions / devices
 	for name, dn := range e.donors {
 		goRun(func() deviation {
-			return deviation{class: "substitute61", what: name, on61: func([]byte) []byte { return dn.resp61 }}
+			return deviation{class: "substitute61", what: name, replayed: true, on61: func([]byte) []byte { return dn.resp61 }}
 		})
 		for ei := range dn.resp63 {
 			goRun(func() deviation {
@@ -540,7 +568,7 @@ func (e *env) explore(thorough bool) {
 			})
 		}
 		goRun(func() deviation {
-			return deviation{class: "pair:substitute61+all63", what: name, on61: func([]byte) []byte { return dn.resp61 }, on63: func(i int, _ []byte) []byte {
+			return deviation{class: "pair:substitute61+all63", what: name, replayed: true, on61: func([]byte) []byte { return dn.resp61 }, on63: func(i int, _ []byte) []byte {
 				if i < len(dn.resp63) {
 					return dn.resp63[i]
 				}
